@@ -260,6 +260,9 @@ class Engine(  # pylint:disable=too-few-public-methods
                 # let pandas transform any acceptable value
                 # into a numpy or pandas dtype.
                 np_or_pd_dtype = pd.api.types.pandas_dtype(data_type)
+                if is_pyarrow_dtype(np_or_pd_dtype):
+                    # e.g.: "timestamp[ns][pyarrow]"
+                    np_or_pd_dtype = np_or_pd_dtype.pyarrow_dtype
                 if isinstance(np_or_pd_dtype, np.dtype):
                     # cast alias to platform-agnostic dtype
                     # e.g.: np.intc -> np.int32
